@@ -7,7 +7,7 @@ from .. import core, universe as U
 from ..core import Undecided
 
 
-def controller_cfg(slots, tmpls, maxops, maxbatches, invs, spec="Spec", secvals=("absent", "v1", "bad"), epsids=("e1", "e2", "e0")):
+def controller_cfg(slots, tmpls, maxops, maxbatches, invs, spec="Spec", secvals=("absent", "v1", "bad"), epsids=("e1", "e2", "e0"), faults=()):
     return """SPECIFICATION %s
 CONSTANTS
     Slots = {%s}
@@ -18,11 +18,13 @@ CONSTANTS
     SecVals = {%s}
     MaxOps = %d
     MaxBatches = %d
+    FaultPoints = {%s}
 INVARIANTS
 %s
 CHECK_DEADLOCK FALSE
 """ % (spec, ", ".join(str(s) for s in slots), ", ".join('"%s"' % t for t in tmpls), ", ".join('"%s"' % e for e in epsids),
-       ", ".join('"%s"' % v for v in secvals), maxops, maxbatches, "\n".join("    " + i for i in invs))
+       ", ".join('"%s"' % v for v in secvals), maxops, maxbatches, ", ".join('"%s"' % f for f in faults),
+       "\n".join("    " + i for i in invs))
 
 
 def check_universe():
@@ -45,7 +47,7 @@ def with_cluster(hid, beh, **kw):
     eps = {"s1": "e1", "s2": "e2"}
     sec = {"c1": "absent", "c2": "absent"}
     for b, st in zip(beh, h["steps"]):
-        for e in b:
+        for e in b["ops"]:
             if e["k"] == "ing":
                 ing[str(e["n"])] = e["v"]
             elif e["k"] == "eps":
@@ -56,12 +58,12 @@ def with_cluster(hid, beh, **kw):
     return h
 
 
-def tlc_histories(ctx, n, maxops=3, maxbatches=3, tmpls=None, tag="sim", opts=None, secvals=("absent", "v1", "v2", "bad")):
+def tlc_histories(ctx, n, maxops=3, maxbatches=3, tmpls=None, tag="sim", opts=None, secvals=("absent", "v1", "v2", "bad"), faults=()):
     """Histories proposed by TLC (-simulate over Controller!Next)."""
     tmpls = tmpls or list(U.ING)
     r = core.tlc(ctx, "gen-" + tag, "Controller", None,
                  cfgtext=controller_cfg([1, 2, 3], tmpls, maxops, maxbatches, ["EmitBehaviour"], secvals=secvals,
-                                        epsids=("e0", "e1", "e2", "e4")),
+                                        epsids=("e0", "e1", "e2", "e4"), faults=faults),
                  workers=1, timeout=1800, simulate="num=%d" % n, depth=maxbatches * (maxops + 1) + 1,
                  extra=["-seed", str(ctx.seed)])
     if r["rc"] != 0:
@@ -186,7 +188,7 @@ def stable_divergence(ctx, h, upto):
     return len(fresh) == 1 and all(e["inc"] not in fresh for e in last)
 
 
-def report(ctx, res, events_file, hist_file, invs, extra_sig=None):
+def report(ctx, res, events_file, hist_file, invs, extra_sig=None, confirm=True):
     """Turns TLC's verdicts into VIOLATION / KNOWN-FINDING lines with replay artefacts."""
     events = core.read_ndjson(events_file)
     hs = {h["id"]: h for h in json.load(open(hist_file))}
@@ -198,15 +200,21 @@ def report(ctx, res, events_file, hist_file, invs, extra_sig=None):
     firsts = {}
     for b in sorted(mine, key=lambda b: b["step"]):
         firsts.setdefault((b["tr"], b["inv"]), b)
+    done = {}
     for (tr, inv), b in sorted(firsts.items(), key=lambda kv: (len(hs[kv[0][0]]["steps"]), kv[1]["step"])):
         e = [x for x in byid[tr] if x.get("step") == b["step"] and x["ev"] == "State"][0]
         d = e["diff"] if inv != "Deterministic" else e["fdiff"]
-        if inv in ("Converged", "ModelConverged") and not stable_divergence(ctx, hs[tr], b["step"]):
-            ctx.notes.append("history %s batch %d: divergence not stable across runs (nondeterminism, judged by C06), not counted" % (tr, b["step"]))
-            continue
         sig = "%s:%s:%s" % (inv, diff_class(d), op_kinds(e["ops"]))
         if extra_sig:
             sig = extra_sig(sig, e, hs[tr])
+        # one instance per signature is examined and reported (the shortest history first)
+        if done.get(sig, 0) >= 1:
+            done[sig] += 1
+            continue
+        if inv in ("Converged", "ModelConverged") and confirm and not stable_divergence(ctx, hs[tr], b["step"]):
+            ctx.notes.append("history %s batch %d: divergence not stable across runs (nondeterminism, judged by C06), not counted" % (tr, b["step"]))
+            continue
+        done[sig] = 1
         hf = ctx.path("viol", tr + ".history.json")
         json.dump([hs[tr]], open(hf, "w"), indent=1)
         tf = ctx.path("viol", tr + ".trace.ndjson")
@@ -215,4 +223,5 @@ def report(ctx, res, events_file, hist_file, invs, extra_sig=None):
                                                         how="bin/verif replay <this dir>"))
         core.classify(ctx, sig, "%s violated after batch %d of history %s (ops %s): %s"
                       % (inv, b["step"], tr, ",".join(e["ops"])[:200], "; ".join(d)[:400]), rd)
+    ctx.finding_counts = done
     return events
